@@ -150,6 +150,14 @@ func c04Node(rng *rand.Rand, depth int) *C04Node {
 		if rng.Intn(2) == 0 {
 			n.M["k 2"] = c04Leaf(rng)
 		}
+		if rng.Intn(3) == 0 {
+			// keys as they are: the empty key, a backslash, a tab, a control character, a non-printable rune
+			n.M[""] = c04Leaf(rng)
+			n.M[`C:\data`] = c04Leaf(rng)
+			n.M["t\tb"] = c04Leaf(rng)
+			n.M["bell\x07"] = c04Leaf(rng)
+			n.M["\u200bzw"] = c04Leaf(rng)
+		}
 	}
 	if depth > 0 && rng.Intn(3) == 0 {
 		n.MI = map[int]*C04Node{-7: child(), 3: child()}
